@@ -19,7 +19,7 @@ type Clause struct {
 	E     *Expr
 	Props []string // property ids this clause serves (nil = function-level set)
 	Line  int
-	Label string // optional label: `ensures [name] expr`
+	Label string   // optional label: `ensures [name] expr`
 	Uses  []string // lemmas assumed only for this clause's obligations: `[uses=lemma]`
 }
 
@@ -109,6 +109,7 @@ type Contracts struct {
 	Lemmas  []*Lemma
 	Fields  []*FieldClass
 	Consts  map[string]string
+	Facts   []*Clause
 	File    string
 	NClause int
 }
@@ -117,7 +118,7 @@ var clauseKeywords = map[string]bool{
 	"func": true, "extern": true, "iface": true, "pure": true, "rec": true, "axiom": true, "property": true,
 	"requires": true, "ensures": true, "assigns": true, "loop": true, "invariant": true, "decreases": true,
 	"at": true, "ghost": true, "inline": true, "trusted": true, "lemma": true, "hyp": true, "concl": true,
-	"guarded": true, "owned": true, "immutable": true, "atomic": true, "opt": true, "uses": true, "induction": true, "nobody": true, "trigger": true,
+	"guarded": true, "owned": true, "immutable": true, "atomic": true, "opt": true, "uses": true, "induction": true, "nobody": true, "trigger": true, "fact": true,
 }
 
 func ParseContracts(paths ...string) (*Contracts, error) {
@@ -467,6 +468,13 @@ func (cs *Contracts) parseFile(path string) error {
 				}
 				cur.Opts[fs[0]] = v
 			}
+		case "fact":
+			c, err := mkClause("fact", rest)
+			if err != nil {
+				return err
+			}
+			cs.Facts = append(cs.Facts, c)
+			cur, curLoop, curRec, curLemma = nil, nil, nil, nil
 		case "guarded", "owned", "immutable", "atomic":
 			// guarded Conn.fidpool,reqs by Conn   |  owned SrvFid.opened by request
 			fs := strings.Fields(rest)
